@@ -2077,9 +2077,9 @@ class AdvancedIndexInNoncontiguousAxes(IndexBase):
                                                                 NormalizedSlice),
                                                    range(len(self.indices)))
 
+        # (The advanced indices are separated by a slice, or by an ellipsis that
+        # stood for no axis.)
         assert len(i_adv_indices) >= 2
-        assert any(i_adv_indices[0] < i_basic_idx < i_adv_indices[-1]
-                   for i_basic_idx in i_basic_indices)
 
         adv_idx_shape = get_shape_after_broadcasting([
             cast("Array | Integer", not_none(self.indices[i_idx]))
